@@ -258,6 +258,20 @@ func (d *doh) RoundTrip(req *http.Request) (resp *http.Response, err error) {
 		d.queries = append(d.queries, name+"/"+typ)
 		d.mu.Unlock()
 		switch d.z.Fail[name+"/"+typ] {
+		case "stall":
+			// the upstream never answers: the exchange ends with its context
+			d.fire("resolver_stall")
+			// (ten virtual minutes at most: a Dial that has nothing else left to do
+			// must still come back)
+			tm := time.NewTimer(10 * time.Minute)
+			select {
+			case <-req.Context().Done():
+				tm.Stop()
+				err = req.Context().Err()
+			case <-tm.C:
+				err = errors.New("sim doh: upstream timed out")
+			}
+			return
 		case "servfail":
 			out.RCode = 2
 			d.fire("resolver_servfail")
@@ -629,7 +643,7 @@ func executeEch(t *testing.T, prop string, seed uint64, p *EchPlan) *core.Result
 	var retErr error
 	var retSeq, retT int64
 	var panicS, panicAt string
-	var libLeft, other []string
+	var libLeft, other, preLeft []string
 	var retNilNil atomic.Bool
 	againDone, callerMutEarly := false, false
 	msg := core.Bubble(t, func(t *testing.T) {
@@ -767,6 +781,11 @@ func executeEch(t *testing.T, prop string, seed uint64, p *EchPlan) *core.Result
 			time.Sleep(rest)
 		}
 		synctest.Wait()
+		// every attempt has returned: whatever Dial still has alive now only goes
+		// away when the caller gives up (looked at before the caller's context ends)
+		if runtime.NumGoroutine() != g0 {
+			preLeft, _ = leakedHere()
+		}
 		cancel()
 		synctest.Wait()
 		if runtime.NumGoroutine() != g0 {
@@ -806,6 +825,12 @@ func executeEch(t *testing.T, prop string, seed uint64, p *EchPlan) *core.Result
 	}
 	if len(other) > 0 {
 		res.Harness = "goroutines left at end of run: " + strings.Join(other, ",")
+	}
+	if len(preLeft) > 0 && len(libLeft) == 0 && !p.ViaTransport {
+		res.Probe("lib_goroutines_wait_for_caller_cancel")
+		if prop == "C18" {
+			res.Fail(prop, "goroutine-leak", strings.Join(dedup(preLeft), ",")+" (until the caller's context ends)", "%d goroutine(s) of Dial still alive after every attempt returned; they only went away when the caller's context was cancelled: %v", len(preLeft), preLeft)
+		}
 	}
 	if len(libLeft) > 0 {
 		res.Probe("lib_goroutines_left") // C18's business; not judged under C17
